@@ -281,6 +281,23 @@ theorem state_restored_every_level (lv : List (Option (S → S) × Option S)) (c
     rw [resumePath_get srcTop srcSub lv (i + 1) m none h]
     simp only [Nat.succ_ne_zero, if_false, resumeLevel_none]
 
+/-- **(partial) a nested graph without state keeps working on the enclosing graph's state
+    after a resume.**  Full statement (what the property needs): for every resumed level
+    that declares no state, whatever its context carried at the interrupt and with or
+    without a modifier, nothing is installed for it (`.inherited`), so its nodes go on
+    reading and writing the enclosing graph's state.  Proved under the hypothesis that the
+    interrupt handlers save the state only for a graph that declares one
+    (`cpSavesOwnStateOnly`, extracted from handleInterrupt /
+    handleInterruptWithSubGraphAndRerunNodes).  Where that fact is `false` the statement is
+    false — `stateless_level_gets_private_copy` — and the harness reports
+    `C11:resume:stateless-nested-state-copy` (fix: fixes/C11-stateless-subgraph-state-copy.diff). -/
+theorem stateless_level_inherits_after_resume_partial
+    (h : FactsC11.cpSavesOwnStateOnly = true) (m : Option (S → S)) (ctxState : Option S) :
+    resumeLevel srcSub m (saveAt FactsC11.cpSavesOwnStateOnly false ctxState) = .inherited := by
+  rw [h]
+  have : saveAt true false ctxState = none := by simp [saveAt]
+  rw [this]; exact resumeLevel_none _ _
+
 /-- **One lock per run and level, also after a resume.** Tasks rebuilt from the checkpoint
     (`t < restored`) and tasks the resumed run creates later find the same mutex in their
     contexts, in both resume branches. -/
@@ -460,6 +477,17 @@ theorem nested_state_lost_without_modifier :
       [((none : Option (Nat → Nat)), none), (none, some 2)]) = [none, none] ∧
     visible none (resumePath Expected.C11.topResume bad
       [(some (· + 10), some 1), (some (· + 10), some 2)]) = [some 11, some 12] := by decide
+
+/-- **A nested graph without state whose interrupt handler saves whatever state its
+    context carries is resumed with a state of its own** — a second object restored from its
+    own checkpoint, a copy of the enclosing graph's state (5): its nodes no longer write to
+    the enclosing graph's state.  With the check `runCtx ≠ nil` nothing is saved and the
+    level inherits. -/
+theorem stateless_level_gets_private_copy :
+    resumeLevel Expected.C11.subResume (none : Option (Nat → Nat)) (saveAt false false (some 5))
+      = .own 5 ∧
+    resumeLevel Expected.C11.subResume (none : Option (Nat → Nat)) (saveAt true false (some 5))
+      = .inherited := by decide
 
 /-- the same three situations with the facts of the source -/
 example :
